@@ -27,6 +27,20 @@ CLAIMED = {
         note="floats modelled as reals; pi and sqrt(1/pi) are constrained symbols; scipy's compiled routine is replaced by the "
              "reference for its documented signature in the symbolic run and called for real in concrete replays.",
         ref="DESIGN.md C08"),
+    "C01": dict(
+        text="Bounded symbolic model checking of DumpReader/read_lammps on real text files whose numerals are opaque symbols: "
+             "for all timesteps, bounds, tilts (either sign), coordinates and extra columns, every line order, 2D/3D, "
+             "x/xs/xu, orthogonal/triclinic, the snapshots are decided equal to the LAMMPS conventions field by field.",
+        note="floats modelled as reals; digit-level lexing of numerals outside the claim; N<=2 (quick) / 3 (thorough) atoms, "
+             "F<=2/3 frames; triclinic multi-frame 3D files use seeded concrete tilts.",
+        ref="DESIGN.md C01"),
+    "C19": dict(
+        text="Bounded symbolic model checking of write_dump_header -> read_lammps_wrapper, the molecule-centre reader, the "
+             "column readers and the HOOMD frame converters on symbolic numerals / duck-typed frames; all values symbolic, "
+             "type maps and column lists enumerated.",
+        note="read_lammpslog is not covered (pandas C parser, no numeric input); 'to written precision' is the identity in the "
+             "symbolic run and 2e-6 in concrete replays; gsd/mdtraj file parsers are replaced by duck-typed frames.",
+        ref="DESIGN.md C19"),
 }
 
 NOT_APPLICABLE = {
